@@ -470,6 +470,10 @@ impl<S: Storage> Replica<S> {
                 renumber,
             )
             .await?;
+
+        // The dependency map is built from the tasks in the working set, so it may now be
+        // invalid; this also covers `sync`, which changes tasks and then rebuilds the working set.
+        self.depmap = None;
         Ok(())
     }
 
